@@ -95,7 +95,7 @@ func init() {
 		}
 		variants := 2
 		if thorough() {
-			variants = 6
+			variants = 8
 		}
 		var jobs []func()
 		for _, ce := range corpus() {
@@ -104,7 +104,7 @@ func init() {
 				jobs = append(jobs, func() {
 					sc := ce.Build(prng.New(r.SeedV, "corpus."+ce.Name, v))
 					sc.Name = fmt.Sprintf("%s#%d", ce.Name, v)
-					n := faultSweep(sc, thorough() && v == 0, func(sc *sim.Scenario, res *sim.Result) {
+					n := faultSweep(sc, thorough() && v < 3, func(sc *sim.Scenario, res *sim.Result) {
 						r.Eval(1)
 						observeLog(r, res)
 						locks := 0
@@ -146,7 +146,7 @@ func init() {
 
 func randomAddrCount() int {
 	if thorough() {
-		return 400
+		return 3000
 	}
 	return 40
 }
